@@ -4,10 +4,13 @@ open Yaclib.FiberSync
 
 set_option maxHeartbeats 4000000 in
 theorem inv_step_1 {k s l s'} (hi : Inv k s) (hs : Step s l s') (hg : grpOf l = 1) : Inv k s' := by
-  cases hi
   cases hs with
-  | unlock f coin w hx h hh hc hw => cases w <;> sm_auto
-  | unlockF f w hx h hh hw => cases w <;> sm_auto
+  | sFast f h hx => cases hi; sm_auto
+  | sPark f h hx => cases hi; sm_auto
+  | sRecheckAcq f h hx => cases hi; sm_auto
+  | sRepark f h hx => cases hi; sm_auto
+  | trySOk f h hx => cases hi; sm_auto
+  | trySFail f h hx => cases hi; sm_auto
   | _ => simp [grpOf] at hg
 
 end Yaclib.FiberSync.Sm
